@@ -230,18 +230,37 @@ def run_jobs(jobs: List[tuple]) -> List[dict]:
     return out
 
 
+def magnitude_limit(cfg: dict, steps) -> int:
+    """Largest unit count for which every product the spec computes stays inside TLC's 32-bit integers."""
+    smax = max(cfg["scale"].values())
+    pmax = max([1] + [max(s["arg"]["h"], s["arg"]["o"]) for s in steps if s["kind"] == "bar"])
+    req = max([1] + [c["reqN"] for c in cfg["cond"].values()]) * max(1, cfg["reqD"])
+    ld = max(1, cfg["vlD"] * cfg["vs"])
+    return max(1000, (2**31 - 1) // (pmax * smax * cfg["pm"] * req * len(cfg["syms"]) * 2 * ld))
+
+
 def slim(tr: dict, tid: int) -> dict:
-    """What ExchangeTrace.tla reads (no nulls, no floats)."""
+    """What ExchangeTrace.tla reads (no nulls, no floats).  A trace is cut before the first step whose amounts would overflow
+    TLC's integers (counted in the evidence as truncated)."""
     steps = []
+    limit = magnitude_limit(tr["cfg"], tr["steps"])
     for s in tr["steps"]:
         o = s["obs"]
+        big = max([0] + [abs(v) for m in (o["bal"], o["hold"], o["bor"]) for v in m.values()]
+                  + [x["amount"] for x in o["loans"]]
+                  + ([s["arg"].get("amount", 0)] if isinstance(s["arg"], dict) else []))
+        if big > limit:
+            tr["truncated_at"] = len(steps)
+            break
         steps.append({"kind": s["kind"], "arg": s["arg"], "ok": s["ok"], "err": s["err"],
                       "openList": s.get("openList", []), "perPairOk": s.get("perPairOk", True),
                       "obs": {"clock": o["clock"], "bal": o["bal"], "hold": o["hold"], "bor": o["bor"],
                               "orders": o["orders"], "loans": o["loans"], "totalOk": o["totalOk"],
                               "listingOk": o["listingOk"], "offgrid": o["offgrid"][:3]}})
+    if "truncated_at" in tr:
+        return {"id": tid, "cfg": tr["cfg"], "steps": steps, "events": [], "complete": False, "truncated": True}
     return {"id": tid, "cfg": tr["cfg"], "steps": steps, "events": [e for e in tr["events"] if "info" in e],
-            "complete": bool(tr["complete"]) and all("info" in e for e in tr["events"])}
+            "complete": bool(tr["complete"]) and all("info" in e for e in tr["events"]), "truncated": False}
 
 
 def validate(traces: List[dict], wd: str, rep: Optional[Report], shards: int = None) -> Dict[int, dict]:
@@ -315,12 +334,20 @@ def random_cfg(rng: random.Random, profile: str) -> dict:
     if liq == "share":
         cfg["vlN"], cfg["vlD"] = rng.choice([(1, 4), (1, 10), (1, 2), (1, 3), (1, 1), (0, 1)])
         cfg["vs"] = rng.choice([1, 1, 10])
+    if lend == "margin" and rng.random() < 0.2:
+        # dust equity against huge loans: the margin level is a tiny positive number (0.00..% once rounded)
+        cfg["scale"] = {s: 1 for s in syms}
+        cfg["pm"] = 1
+        cfg["init"] = {s: 0 for s in syms}
+        cfg["init"]["USD"] = rng.choice([1, 1, 2, 3])
+        cfg["dust"] = True
     if lend == "margin" and rng.random() < 0.15:
         # a minimum fee larger than small proceeds: a sell may have to borrow both symbols
         cfg["feeMode"], cfg["feeN"], cfg["feeD"], cfg["minFeeN"], cfg["minFeeD"] = "pct", 1, 100, rng.choice([3, 50]), 1
     if lend == "margin":
         # keep value computations (units * price * scale ratio * requirement) inside TLC's 32-bit integers
         cfg["pm"] = 1
+        cfg["scale"] = {s: min(v, 10) for s, v in cfg["scale"].items()}
         cfg["reqD"] = 4
         for s in syms:
             if rng.random() < 0.85:
@@ -341,7 +368,7 @@ class Driver:
         self.calls_left = {}
         self.bars = []
         t = 0
-        px = {i + 1: rng.randint(20, 200) * cfg["pm"] for i in range(len(cfg["pairs"]))}
+        px = {i + 1: (rng.randint(2, 20) if cfg.get("dust") else rng.randint(20, 200)) * cfg["pm"] for i in range(len(cfg["pairs"]))}
         for _ in range(nbars):
             t += rng.choice([1, 1, 1, 2, 4])
             some = False
@@ -389,6 +416,8 @@ class Driver:
             return [{"kind": kind, "arg": rng.randint(1, n + 1)}]
         if kind == "create_loan":
             s = rng.choice(cfg["syms"])
+            if cfg.get("dust"):
+                return [{"kind": kind, "arg": {"sym": s, "amount": rng.choice([1, rng.randint(2, 9), rng.randint(10**3, 10**4), rng.randint(10**4, 2 * 10**4)])}}]
             return [{"kind": kind, "arg": {"sym": s, "amount": rng.choice([0, 1, rng.randint(1, 60), rng.randint(50, 600)])}}]
         # create_order, aiming at the reservation boundary
         p = rng.randint(1, len(cfg["pairs"]))
